@@ -1,7 +1,7 @@
 CONFIG = dict(
     props=["DhcpProofs.Props.C03"],
-    facts=[],
-    streams=[("v4dec", 4000, 30000), ("v6dec", 6000, 40000)],
+    facts=["DhcpProofs.Facts.C03Observe"],
+    streams=[("v4dec", 4000, 30000), ("v6dec", 6000, 40000), ("c03x", 12000, 120000)],
     oracles=[("c03", 40000, 1200000)],
     full_statement_proved=False,
     missing=("Proved for the model: no panic in dhcpv4.FromBytes, dhcpv4.Options.FromBytes, dhcpv6.FromBytes/MessageFromBytes/"
@@ -9,15 +9,44 @@ CONFIG = dict(
              "and label re-encoding (restated from C19), the raw-frame reader (restated from C18), GetInnerMessage and the DHCPv6 "
              "relay-reply/request/advertise/reply builders on decoded messages (restated from C16), re-encoding of decoded DHCPv4 "
              "packets; termination by structural recursion on fuel with fuel sufficiency proved (DHCPv4 option loop, DHCPv6 "
-             "nesting and flat loops, label loop). "
-             "NOT proved here: String/Summary/LongString (formatting goes through fmt), ZTP (ztpv4/ztpv6) and netboot string "
-             "handling, DHCPv4 typed accessors and builders, the DHCPv6 typed accessors as such, DecapsulateRelayIndex / MAC "
-             "extraction, architecture lists, re-encoding of DHCPv6 messages - where models exist they live in other checks "
-             "(C15 DHCPv4 builders, C16 relay handling, C17 DHCPv4 accessors); for all of "
-             "those the assurance in C03 is the crash search of oracle c03 on the real code (testing, not proof). The search is "
-             "mutation-based with behaviour-novelty feedback, not coverage-guided (no instrumentation in-process)."),
+             "nesting and flat loops, label loop). Read-only use of decoded values, proved for the model: DecapsulateRelay and "
+             "DecapsulateRelayIndex (every message value, every index, with the level returned characterised on chains and "
+             "broken chains), GetMacAddressFromEUI64 (panics exactly on 4-byte addresses, never on a decoded address field), "
+             "ExtractMAC, netboot.GetNetConfFromPacketv6 and ConversationToNetconf (every list of decoded messages, any length), "
+             "ztpv6.ParseVendorData on decoded messages, GetNetConfFromPacketv4 / ConversationToNetconfv4 and "
+             "ztpv4.ParseVendorData / parseClassIdentifier / parseVIVC (every option map), the three DHCPv4 typed accessors "
+             "whose model has a failure outcome (DomainSearch, MaxMessageSize, AutoConfigure; the other 26 are total functions "
+             "into panic-free types), re-encoding of decoded DHCPv6 messages (the only panic path, an embedded DHCPv4 message "
+             "with a non-IPv4 header address, is excluded for decoded messages); where the statement needs decodedness a "
+             "hand-built counterexample is proved (C03_extractMAC_counterexample, C03_conversationToNetconf_counterexample, "
+             "C03_ztp6_parseVendorData_counterexample, C03_reencode6_counterexample). "
+             "NOT proved here: String/Summary/LongString (formatting goes through fmt); the regular expressions of "
+             "ztpv4.ParseCircuitID (11) and ztpv6.ParseRemoteID (2) are abstracted as a total matcher (both functions are proved "
+             "panic-free for every such matcher; Go's regexp is trusted; stream c03x runs ParseRemoteID against a hand-written "
+             "matcher, ParseCircuitID is only crash-searched); DHCPv4 builders (C15); the DHCPv6 typed accessors other than those "
+             "the observers above go through (ClientID, IANA/OneIANA, Addresses, DNS, DomainSearchList, NTPServers, BootFileURL, "
+             "BootFileParam, RelayMessage, InterfaceID, RemoteID, ClientLinkLayerAddress); architecture lists as such (iana.Archs."
+             "FromBytes is part of both decoder models - DHCPv4 ClientArch accessor, DHCPv6 option 61 - but Archs.String and a "
+             "standalone entry point are not stated here); the "
+             "interface-dependent helpers (GetLinkLocalAddr/GetGlobalAddr, RequestNetbootv4/v6, IfUp, ConfigureInterface: they "
+             "talk to the kernel, not to a decoded value) - for all of those the assurance in C03 is the crash search of oracle "
+             "c03 on the real code (testing, not proof). The search is mutation-based with behaviour-novelty feedback, not "
+             "coverage-guided (no instrumentation in-process)."),
     rule=("streams v4dec/v6dec: ok/err/panic verdict of the Go decoders vs the Lean model on valid, truncated, length-perturbed and "
-          "random inputs. oracle c03 (real code only): every decoding entry point (dhcpv4.FromBytes, Options.FromBytes, 15 DHCPv4 "
+          "random inputs. stream c03x: every op line carries wire bytes; both sides decode them and call the observer on the "
+          "decoded value; verdict AND returned value (canonical text) are compared: DecapsulateRelay, DecapsulateRelayIndex "
+          "(relay chains of depth 0..8, thorough to 40, built by hand with and without a relay-message option, generic/duplicated "
+          "relay-message options, every index -3..depth+3), GetInnerMessage, ExtractMAC, GetMacAddressFromEUI64 (nil, EUI-64, "
+          "random 16-byte and - outside the decoded domain, where the real code panics and the model says so - other lengths), "
+          "netboot.GetNetConfFromPacketv6 / ConversationToNetconf (conversations of 0..6 decoded messages mixing SOLICIT/ADVERTISE/"
+          "REQUEST/REPLY/relay, IA_NA with 0..3 addresses, DNS, domain list, NTP sub-options, present/empty/absent boot file URL), "
+          "ztpv6.ParseVendorData (every vendor string of the ZTP corpus and near misses in options 16 and 17, Mellanox "
+          "sub-options, on plain and relayed messages) and ParseRemoteID, ToBytes of decoded DHCPv6 messages, "
+          "ztpv4.ParseVendorData, netboot.GetNetConfFromPacketv4 / ConversationToNetconfv4 (0..6 packets), the 29 DHCPv4 typed "
+          "accessors on decoded packets; thorough adds every index on every depth 0..8, all 585 conversations of length <= 3 over "
+          "a pool of 8 messages and every ZTP corpus string. Facts (Facts/C03Observe.lean, regenerated by extract/c03x.go): the "
+          "HasPrefix / Split literals and the piece counts tested before indexing in the ZTP parsers, enterprise numbers, "
+          "Mellanox sub-option codes, the message types of netboot's switch, option codes. oracle c03 (real code only): every decoding entry point (dhcpv4.FromBytes, Options.FromBytes, 15 DHCPv4 "
           "value types, dhcpv6.FromBytes/MessageFromBytes/RelayMessageFromBytes/ParseOption for every known and some unknown "
           "codes/Options.FromBytes/DUIDFromBytes, rfc1035label.FromBytes, iana.Archs.FromBytes, nclient4 raw ReadFrom over scripted "
           "frames) under recover + a watchdog (a call still running after 2 s, and after 2 s more with all other work paused, is a hang), on: the regression corpus corpus/c03.txt, a base corpus with a valid instance of "
@@ -37,7 +66,7 @@ CONFIG = dict(
 )
 
 MANIFEST = dict(
-    text="Machine-checked theorems (Lean 4) for all byte strings, no length bound: the models of dhcpv4.FromBytes, dhcpv4.Options.FromBytes, dhcpv6.FromBytes, MessageFromBytes, RelayMessageFromBytes, ParseOption (all 32 option types at any nesting depth), Options.FromBytes and DUIDFromBytes never reach a panic guard (C03_dec4, C03_optsFromBytes, C03_dec6, C03_decMessage, C03_decRelay, C03_parseOption, C03_decOpts6, C03_decDUID, C03_labelFromBytes; C03_rawRead, C03_labelToBytes and C03_v6_builders_decoded restated from C18/C19/C16), decoded DHCPv4 packets always re-encode (C03_enc_decoded), and all of them terminate: structural recursion on fuel, with the out-of-fuel branches proved unreachable (C03_optsLoop_fuel, C03_dec6_fuel, C03_parseOption_fuel, C03_decOpts6_fuel, C03_v6_loops_fuel, C03_label_terminates). PARTIAL: read-only operations other than re-encoding (accessors, String/Summary, DHCPv4 builders, relay decapsulation by index, MAC extraction, ZTP/netboot extractors, DHCPv6 re-encoding) and architecture lists are not proved in this check; for them, and for the real code as a whole, the evidence is an implementation-level crash search (recover + watchdog around every entry point and about 420 reflected methods and helpers, structure-aware mutation, sizes up to 65507 bytes, all netboot conversations of up to 4 messages) - testing, stated as such in the evidence (full_statement_proved=false). Tie: v4dec/v6dec differential streams (ok/err/panic verdicts) and a regenerated go/ssa inventory of panic-capable instructions that steers the search budget.",
+    text="Machine-checked theorems (Lean 4) for all byte strings, no length bound: the models of dhcpv4.FromBytes, dhcpv4.Options.FromBytes, dhcpv6.FromBytes, MessageFromBytes, RelayMessageFromBytes, ParseOption (all 32 option types at any nesting depth), Options.FromBytes and DUIDFromBytes never reach a panic guard (C03_dec4, C03_optsFromBytes, C03_dec6, C03_decMessage, C03_decRelay, C03_parseOption, C03_decOpts6, C03_decDUID, C03_labelFromBytes; C03_rawRead, C03_labelToBytes and C03_v6_builders_decoded restated from C18/C19/C16), decoded DHCPv4 packets always re-encode (C03_enc_decoded), and all of them terminate: structural recursion on fuel, with the out-of-fuel branches proved unreachable (C03_optsLoop_fuel, C03_dec6_fuel, C03_parseOption_fuel, C03_decOpts6_fuel, C03_v6_loops_fuel, C03_label_terminates). Read-only use of decoded values: DecapsulateRelay / DecapsulateRelayIndex never panic for any message value and any index, and the level returned is characterised for chains and broken chains (C03_decapsulateRelayIndex, _chain, _broken, C03_relay_chain_or_broken, C03_lastRelay_fuel); GetMacAddressFromEUI64 panics exactly on 4-byte addresses (C03_getMac_panic_iff), never on a decoded address field; ExtractMAC, netboot.GetNetConfFromPacketv6 and ConversationToNetconf (every list of decoded messages, any length), ztpv6.ParseVendorData and DHCPv6 re-encoding do not panic on decoded messages (C03_extractMAC, C03_getNetConfFromPacketv6, C03_conversationToNetconf, C03_ztp6_parseVendorData, C03_reencode6), each with a machine-checked hand-built counterexample showing that decodedness is needed (C03_*_counterexample); ztpv6.ParseRemoteID, ztpv4.ParseVendorData / parseClassIdentifier / parseVIVC / ParseCircuitID, netboot.GetNetConfFromPacketv4 / ConversationToNetconfv4 and the DHCPv4 typed accessors do not panic for any option map (C03_ztp6_parseRemoteID, C03_ztp4_parseVendorData, C03_ztp4_parseCircuitID, C03_getNetConfFromPacketv4, C03_conversationToNetconfv4, C03_v4_accessors), regular expressions abstracted as an arbitrary total matcher. PARTIAL: String/Summary/LongString, the regular expressions themselves, the DHCPv4 builders, the remaining DHCPv6 typed accessors and architecture lists are not proved in this check; for them, and for the real code as a whole, the evidence is an implementation-level crash search (recover + watchdog around every entry point and about 420 reflected methods and helpers, structure-aware mutation, sizes up to 65507 bytes, all netboot conversations of up to 4 messages) - testing, stated as such in the evidence (full_statement_proved=false). Tie: v4dec/v6dec differential streams (ok/err/panic verdicts), the c03x stream (observers run on decoded values in the real code and in the model, verdict and value compared), fact obligations regenerated from the ZTP/netboot sources, and a regenerated go/ssa inventory of panic-capable instructions that steers the search budget.",
     design_ref="DESIGN.md section 6 C03",
     note=NOTE_COMMON + "The crash search is bounded testing; a panic reachable only through inputs the mutators cannot produce would be missed. Go runtime fatal errors (stack exhaustion, out of memory) abort the oracle and are reported as a broken oracle, not as a classified failure.",
     technique="Lean 4 proof (induction on fuel: no decoder branch returns panic) + model/code correspondence + implementation-level crash search under recover/watchdog steered by a go/ssa panic-site inventory",
